@@ -62,8 +62,10 @@ class Executor(Engine):
                 return q
             if f"api.{n}" in self.contracts and n not in ("ReferenceTuple",):
                 return f"api.{n}"
-            if n in ("Converter", "Record", "cls") and n != "cls":
+            if n in ("Converter", "Record"):
                 return f"ctor.{n}"
+            if n == "cls" and self.cur_class in ("Converter", "Record"):
+                return f"ctor.{self.cur_class}"
             if n == "sorted":
                 return "lib.sorted"
             if n == "partial":
@@ -275,7 +277,7 @@ class Executor(Engine):
         if q.startswith("lib."):
             return self.do_lib_call(q, call, st, catching)
         if q.startswith("ctor."):
-            raise Unsupported(f"constructor call {q}")
+            return self.do_ctor(q[5:], call, st, catching)
         recv = None
         if isinstance(call.func, ast.Attribute):
             rs = self.pure_eval(call.func.value, st, catching)
@@ -308,6 +310,7 @@ class Executor(Engine):
                 raise Unsupported(f"contract parameter {p} of {q} not bound")
             env[p] = binding[p]
         req, rai, ens = [], [], []
+        may, rai_unch = [], []
         pure = False
         modifies = []
         pre = pre_state or st
@@ -330,13 +333,19 @@ class Executor(Engine):
                         modifies += [ast.unparse(a) for a in cnode.args]
                     elif f == "hint":
                         pass
+                    elif f == "may_raise":
+                        may += list(self.ev(cnode.args[0], env, pre).names)
                     elif f == "raises":
                         names = self.ev(cnode.args[0], env, pre).names
                         when = TRUE
+                        unchanged = False
                         for kw in cnode.keywords:
                             if kw.arg == "when":
                                 when = truthy(self.ctx, self.ev(kw.value, env, pre))
+                            if kw.arg == "unchanged":
+                                unchanged = bool(ast.literal_eval(kw.value))
                         rai.append((names, when, ast.unparse(cnode)[:80]))
+                        rai_unch.append((names, when, unchanged))
                     elif f == "ensures":
                         if result is not None:
                             env2 = dict(env)
@@ -349,7 +358,8 @@ class Executor(Engine):
                 raise Unsupported("contract statement form")
         finally:
             self.in_spec -= 1
-        return {"requires": req, "raises": rai, "ensures": ens, "pure": pure, "modifies": modifies, "env": env}
+        return {"requires": req, "raises": rai, "ensures": ens, "pure": pure, "modifies": modifies, "env": env,
+                "may_raise": may, "raises_unchanged": rai_unch}
 
     def ev_post(self, node, env, post, pre):
         """Evaluate a postcondition: old(e) sub-expressions are evaluated in the pre-state."""
@@ -406,6 +416,10 @@ class Executor(Engine):
                 continue
             outs.append((st.assume(when), Outcome("raise", exc=names[0])))
             normal = normal.assume(Not(when))
+        for name in parts["may_raise"]:
+            # may_raise: the callee may fail here for reasons the contract leaves open; state is havocked like a normal return
+            s_exc = st if parts["pure"] else self.havoc_modifies(q, parts, binding, st)
+            outs.append((s_exc, Outcome("raise", exc=name)))
         rty = self.result_type(q)
         result = c.fresh("r_" + q.split(".")[-1], rty)
         post = normal
@@ -417,8 +431,106 @@ class Executor(Engine):
         outs.append((post, result))
         return outs
 
+    # ------------------------------------------------------------------ frames
+    def modifies_locations(self, q, binding, st):
+        """Evaluate the modifies(...) clauses of q's contract in state st: list of ('obj', VRef) |
+        ('field', VRef, name) | ('objs', VList of VRef)."""
+        node = self.contracts[q]
+        env = dict(binding)
+        locs = []
+        self.in_spec += 1
+        try:
+            for s_ in node.body:
+                if isinstance(s_, ast.Assign) and isinstance(s_.targets[0], ast.Name):
+                    try:
+                        env[s_.targets[0].id] = self.ev(s_.value, env, st)
+                    except Unsupported:
+                        pass
+                    continue
+                if isinstance(s_, ast.Expr) and isinstance(s_.value, ast.Call) and isinstance(s_.value.func, ast.Name) and s_.value.func.id == "modifies":
+                    for a in s_.value.args:
+                        if isinstance(a, ast.Starred):
+                            v = self.ev(a.value, env, st)
+                            if not isinstance(v, VList):
+                                raise Unsupported("modifies(*x) of a non-list")
+                            locs.append(("objs", v))
+                        elif isinstance(a, ast.Attribute):
+                            base = self.ev(a.value, env, st)
+                            if isinstance(base, VOpt):
+                                base = base.val
+                            if isinstance(base, VRef) and a.attr in FIELDS[base.cls]:
+                                locs.append(("field", base, a.attr))
+                            else:
+                                raise Unsupported("modifies target " + ast.unparse(a))
+                        else:
+                            v = self.ev(a, env, st)
+                            if isinstance(v, VOpt):
+                                v = v.val
+                            if isinstance(v, VRef):
+                                locs.append(("obj", v))
+                            elif isinstance(v, VNone):
+                                pass
+                            else:
+                                raise Unsupported("modifies target " + ast.unparse(a))
+        finally:
+            self.in_spec -= 1
+        return locs
+
+    def allowed(self, locs, cls, f, x):
+        """x (a term of the reference sort of cls) is a location of field f that the contract allows to change."""
+        c = self.ctx
+        alts = []
+        for loc in locs:
+            if loc[0] == "obj" and loc[1].cls == cls:
+                alts.append(Eq(x, loc[1].t))
+            elif loc[0] == "field" and loc[1].cls == cls and loc[2] == f:
+                alts.append(Eq(x, loc[1].t))
+            elif loc[0] == "objs" and loc[1].ety == cls:
+                i = c.bvar("i", "Int")
+                alts.append(Exists([i], And(Le(Int(0), i), Lt(i, loc[1].n), Eq(loc[1].at(i).t, x))))
+        return Or(*alts)
+
+    def frame_condition(self, locs, pre, post):
+        """Everything allocated in `pre` and not named by locs has the same field values in `post`."""
+        c = self.ctx
+        out = []
+        for cls, f in FIELDS_KEYS():
+            a0 = pre.harr(c, cls, f)
+            a1 = post.harr(c, cls, f)
+            if a0.s == a1.s:
+                continue
+            x = c.bvar("x", REF_SORT[cls])
+            out.append((f"{cls}.{f}", ForAll([x], Implies(And(Select(pre.alloc_arr(c, cls), x), Not(self.allowed(locs, cls, f, x))),
+                                                         Eq(Select(a1, x), Select(a0, x))))))
+        return out
+
     def havoc_modifies(self, q, parts, binding, st):
-        raise Unsupported(f"call to non-pure contracted function {q} (frames not implemented)")
+        """Caller side of a non-pure call: fresh heap arrays for the fields named by modifies(...), framed."""
+        c = self.ctx
+        locs = self.modifies_locations(q, binding, st)
+        post = st.copy()
+        touched = set()
+        for loc in locs:
+            cls = loc[1].cls if loc[0] != "objs" else loc[1].ety
+            for f in FIELDS[cls]:
+                if loc[0] == "field" and loc[2] != f:
+                    continue
+                touched.add((cls, f))
+        # callee may allocate: allocation only grows
+        for cls in ("Record", "Converter"):
+            a0 = st.alloc_arr(c, cls)
+            a1 = c.const(f"A_{cls}", a0.sort)
+            x = c.bvar("x", REF_SORT[cls])
+            post.heap[("alloc", cls)] = a1
+            post = post.assume(ForAll([x], Implies(Select(a0, x), Select(a1, x))))
+        for cls, f in FIELDS_KEYS():
+            # fields of objects allocated by the callee are unconstrained; named locations are havocked
+            a0 = st.harr(c, cls, f)
+            a1 = c.const(f"H_{cls}_{f}", a0.sort)
+            post.heap[(cls, f)] = a1
+        for name, cond in self.frame_condition(locs, st, post):
+            post = post.assume(cond)
+        return post
 
     # ------------------------------------------------------------------ assumed library contracts
     def do_lib_call(self, q, call, st, catching):
@@ -447,7 +559,129 @@ class Executor(Engine):
                                      Le(app("slen", k2, sort="Int"), app("slen", key, sort="Int"))))))
             outs.append((hit, VTuple([VStr(key), trie.get(VStr(key))])))
             return outs
+        if q == "lib.sorted":
+            if len(call.args) != 1:
+                raise Unsupported("sorted() arity")
+            key_fn = None
+            reverse = False
+            for kw in call.keywords:
+                if kw.arg == "key":
+                    if isinstance(kw.value, ast.Lambda) and len(kw.value.args.args) == 1:
+                        lam = kw.value
+                        key_fn = lambda v, lam=lam, st=st: self.ev(lam.body, {**st.env, lam.args.args[0].arg: v}, st)
+                    elif isinstance(kw.value, ast.Name) and kw.value.id == "len":
+                        key_fn = lambda v: VInt(app("slen", v.t, sort="Int"))
+                    else:
+                        raise Unsupported("sorted key form")
+                elif kw.arg == "reverse":
+                    reverse = ast.literal_eval(kw.value)
+                else:
+                    raise Unsupported("sorted keyword")
+            outs = []
+            for s1, v in self.cev(call.args[0], st, catching):
+                if isinstance(v, Outcome):
+                    outs.append((s1, v))
+                    continue
+                if isinstance(v, VOpt):
+                    v = v.val
+                if isinstance(v, VSet):
+                    v = self.set_as_list(v)
+                if isinstance(v, VDict):
+                    v = self.dict_as_list(v, "keys")
+                if not isinstance(v, VList):
+                    raise Unsupported("sorted() of " + type(v).__name__)
+                outs.append((s1, self.sorted_list(v, key_fn, reverse)))
+            return outs
+        if q == "lib.StringTrie":
+            c.trusted.add("pytrie.StringTrie(mapping) stores exactly the items of the mapping (a copy)")
+            outs = []
+            for s1, v in self.cev(call.args[0], st, catching):
+                outs.append((s1, v))
+            return outs
+        if q == "lib.model_copy":
+            deep = any(kw.arg == "deep" and isinstance(kw.value, ast.Constant) and kw.value.value is True for kw in call.keywords)
+            if not deep or call.args:
+                raise Unsupported("model_copy() that is not deep=True: the copy would share the synonym list objects, which the heap model (lists as values) cannot represent")
+            c.trusted.add("pydantic BaseModel.model_copy(deep=True) returns a fresh object with equal field values")
+            rs = self.pure_eval(call.func.value, st, catching)
+            s1, src = rs[-1]
+            if isinstance(src, VOpt):
+                src = src.val
+            if not isinstance(src, VRef) or src.cls != "Record":
+                raise Unsupported("model_copy of " + type(src).__name__)
+            s2, r = s1.allocate(c, "Record", "copy")
+            for f in FIELDS["Record"]:
+                s2 = s2.set_field(c, r, f, s1.field(c, src, f))
+            return [(s2, r)]
         raise Unsupported(f"library call {q}")
+
+    def set_as_list(self, sv):
+        """Some list of the distinct elements of a set (iteration order of a set: unspecified but fixed)."""
+        c = self.ctx
+        lst = c.fresh("elems", ("list", sv.ety))
+        i, j = c.bvar("i", "Int"), c.bvar("j", "Int")
+        rng = lambda t: And(Le(Int(0), t), Lt(t, lst.n))
+        c.assumptions.append(ForAll([i], Implies(rng(i), sv.has(lst.at(i)))))
+        c.assumptions.append(ForAll([i, j], Implies(And(rng(i), rng(j), Not(Eq(i, j))), Not(veq(c, lst.at(i), lst.at(j))))))
+        x = c.bvar("x", c.sort(sv.ety))
+        xv = c.wrap(x, sv.ety)
+        idx = c.fun("elemidx", [c.sort(sv.ety)], "Int")
+        ix = app(idx, x, sort="Int")
+        c.assumptions.append(ForAll([x], Implies(sv.has(xv), And(rng(ix), veq(c, lst.at(ix), xv)))))
+        return lst
+
+    def do_ctor(self, cls, call, st, catching):
+        c = self.ctx
+        if cls == "Converter":
+            q = "api.Converter.__init__"
+            if q not in self.contracts:
+                raise Unsupported("no contract for Converter.__init__")
+            s1, r = st.allocate(c, "Converter", "conv")
+            outs = []
+            for s2, b in self.bind_args(q, call, r, s1, catching):
+                if isinstance(b, Outcome):
+                    outs.append((s2, b))
+                    continue
+                for s3, v in self.apply_contract(q, b, s2, self.where(call)):
+                    outs.append((s3, v if isinstance(v, Outcome) else r))
+            return outs
+        if cls == "Record":
+            # pydantic model construction: keyword arguments; the two field validators of Record reject a
+            # canonical value listed among its own synonyms (their bodies are verified separately)
+            c.trusted.add("pydantic: Record(**kw) runs the field validators, copies list arguments, raises ValidationError (a ValueError) when a validator raises")
+            vals = {}
+            states = [(st, {})]
+            if call.args:
+                raise Unsupported("positional Record(...)")
+            for kw in call.keywords:
+                if kw.arg is None:
+                    raise Unsupported("Record(**mapping)")
+                states = self._bind_one(states, kw.arg, kw.value, catching)
+            outs = []
+            for s1, b in states:
+                if isinstance(b, Outcome):
+                    outs.append((s1, b))
+                    continue
+                if "prefix" not in b or "uri_prefix" not in b:
+                    raise Unsupported("Record(...) without prefix / uri_prefix")
+                empty = VList(Int(0), lambda i: VStr(T("empty", "Str")), "str")
+                b.setdefault("prefix_synonyms", empty)
+                b.setdefault("uri_prefix_synonyms", empty)
+                b.setdefault("pattern", VNone())
+                for k in ("prefix_synonyms", "uri_prefix_synonyms"):
+                    if isinstance(b[k], VOpt):
+                        raise Unsupported("optional synonyms argument")
+                    if isinstance(b[k], VSet):
+                        b[k] = self.set_as_list(b[k])
+                bad = Or(self.contains(b["prefix_synonyms"], b["prefix"], s1), self.contains(b["uri_prefix_synonyms"], b["uri_prefix"], s1))
+                if not smt.is_false(bad):
+                    outs.append((s1.assume(bad), Outcome("raise", exc="ValidationError")))
+                s2, r = s1.assume(Not(bad)).allocate(c, "Record", "rec")
+                for f in FIELDS["Record"]:
+                    s2 = s2.set_field(c, r, f, b[f])
+                outs.append((s2, r))
+            return outs
+        raise Unsupported("constructor " + cls)
 
     # ------------------------------------------------------------------ statements
     def run_block(self, stmts, st, catching=()):
@@ -533,7 +767,7 @@ class Executor(Engine):
         Q = lambda t: app(inv, t, sort="Int")
         c.assumptions.append(Eq(out.n, lst.n))
         c.assumptions.append(ForAll([i], Implies(rng(i, out.n), And(rng(P(i), lst.n), Eq(Q(P(i)), i), veq(c, out.at(i), lst.at(P(i)))))))
-        c.assumptions.append(ForAll([i], Implies(rng(i, lst.n), And(rng(Q(i), out.n), Eq(P(Q(i)), i)))))
+        c.assumptions.append(ForAll([i], Implies(rng(i, lst.n), And(rng(Q(i), out.n), Eq(P(Q(i)), i), veq(c, out.at(Q(i)), lst.at(i))))))
         # ordering
         j = c.bvar("j", "Int")
         def keyof(v):
